@@ -1,5 +1,5 @@
 From Coq Require Import List NArith Bool Lia Arith.
-From BS Require Import Model.Registry Spec.RegistrySpec.
+From BS Require Import Base.Types Model.Registry Spec.RegistrySpec.
 Import ListNotations.
 Open Scope N_scope.
 
